@@ -6,6 +6,10 @@ target group", also inside multi-pairings).
   MIL-COMPACT  in the multi-pairing forms the loop receives the compacted local arrays and the compaction counter: the counter
                is incremented, and the compacted arrays are written, only where both points of the pair were tested not to
                be the identity; the caller's arrays and length never reach the loop
+  MIL-NORM     the points handed to a Miller loop are normalised copies: the local operand arrays are written by the
+               normalisers only (the loops read x and y as affine coordinates), never by a plain copy of the caller's point
+  MAP-DISPATCH under each selectable pairing (optimal ate, Tate, Weil) the single pairing and the multi-pairing that the
+               pc_map / pc_map_sim macros expand to are the same variant
   ID-ONE       on every normal return the result is either the product of a Miller loop or was last set to one (set_dig(.,1)
                or a product of such values)
 """
@@ -28,6 +32,8 @@ MAP = re.compile(r"^pp_map_(sim_)?(tatep|weilp|oatep)_k\d+$")
 MIL = re.compile(r"^pp_mil_(lit_)?(k\d+|sps_k\d+)\w*$|^pp_mil_\w+$")
 INFTY = re.compile(r"^ep\d*_is_infty$")
 NORM = re.compile(r"^ep\d*_(norm|copy)$")
+NORM_ONLY = re.compile(r"^ep\d*_norm(_sim)?$")
+KEEPS_NORM = re.compile(r"^ep\d*_(neg|null|new|free|frb|psi)$|^fp\d*_\w+$")
 POINT_T = re.compile(r"^(const )?ep\d*_t\b")
 FPX_T = re.compile(r"^(const )?fp\d*_t\b")
 SET_DIG = re.compile(r"^fp\d*_set_dig$")
@@ -242,6 +248,30 @@ def analyse_map(ctx, prog, chk, fn):
                 chk.fail("MIL-COMPACT", fn, "compaction@%s" % (fn.vars[(incs or wr)[0]]["n"]), "%s where %s not tested against the identity: an identity pair enters the loop" % (what, ", ".join("`%s[i]`" % x for x in missing)), line=nd.line())
             else:
                 chk.ok("MIL-COMPACT", fn, "compaction@%s" % (fn.vars[(incs or wr)[0]]["n"]), what + " only for pairs without identity", line=nd.line())
+    # MIL-NORM: every writer of a local operand array is a normaliser (or keeps the normal form)
+    ops = set()
+    for el in mil_sites:
+        for c in ir.calls_in(fn, el.e):
+            if c[1] and MIL.match(c[1]):
+                for a in c[2]:
+                    v = ir.base_var(fn, a)
+                    if v is not None and v not in params and is_point_var(fn, v) and v in origin:
+                        ops.add(v)
+    for v in sorted(ops):
+        bad_w = None
+        for el in fn.all_elements():
+            for c in ir.calls_in(fn, el.e):
+                if not c[1] or MIL.match(c[1]) or NORM_ONLY.match(c[1]) or KEEPS_NORM.match(c[1]):
+                    continue
+                for i, a in enumerate(c[2]):
+                    if ir.arg_is_pointer(c, i) and ir.base_var(fn, a) == v and engines.callee_writes_arg(prog, fn, c[1], i):
+                        bad_w = (c[1], el.line)
+        n += 1
+        nm = fn.vars[v]["n"]
+        if bad_w:
+            chk.fail("MIL-NORM", fn, nm, "`%s`, which the Miller loop reads as affine coordinates, is written by `%s`, which does not normalise: a projective input (the result of an addition or doubling) gives a different pairing value" % (nm, bad_w[0]), line=bad_w[1])
+        else:
+            chk.ok("MIL-NORM", fn, nm, "operand array written by normalisers only", line=fn.line)
     # ID-ONE
     bad = None
     nret = 0
@@ -257,6 +287,28 @@ def analyse_map(ctx, prog, chk, fn):
     else:
         chk.ok("ID-ONE", fn, fn.vars[r]["n"], "result is one wherever no Miller loop ran", line=fn.line)
     return n
+
+
+def rule_dispatch(ctx, prog, chk):
+    """the variant reached through pc_map and through pc_map_sim is the same"""
+    seen = {"pc_map": set(), "pc_map_sim": set()}
+    for fn in prog.all:
+        for el in fn.all_elements():
+            ms = [m for m, _ in el.ms]
+            for top in seen:
+                if top in ms:
+                    for c in ir.calls_in(fn, el.e):
+                        m = re.match(r"^pp_map_(sim_)?(tatep|weilp|oatep)_k\d+$", c[1] or "")
+                        if m:
+                            seen[top].add(m.group(2))
+    if not seen["pc_map"] or not seen["pc_map_sim"]:
+        raise AnalysisBroken("MAP-DISPATCH: no expansion of pc_map / pc_map_sim found in the library under %s" % prog.config)
+    if seen["pc_map"] == seen["pc_map_sim"] and len(seen["pc_map"]) == 1:
+        chk.ok("MAP-DISPATCH", "pc_map", prog.config, "pc_map and pc_map_sim both expand to the %s pairing" % sorted(seen["pc_map"])[0], file="include/relic_pp.h")
+    else:
+        chk.fail("MAP-DISPATCH", "pc_map", prog.config, "under configuration %s pc_map expands to %s but pc_map_sim to %s: a multi-pairing is no longer the product of the single pairings" % (
+            prog.config, sorted(seen["pc_map"]), sorted(seen["pc_map_sim"])), file="include/relic_pp.h")
+    return 1
 
 
 def analyse(ctx, prog, chk):
@@ -276,11 +328,18 @@ def selfcheck(ctx, prog, chk):
 
 
 def run(ctx, chk):
+    from .. import facts
     c = analyse(ctx, ctx.program("BASE"), chk)
     chk.floor("MIL-GUARD", "pairing entry points with a Miller loop", c["maps"], 20)
     analyse(ctx, ctx.program("P381"), chk)
+    rule_dispatch(ctx, ctx.program("BASE"), chk)
+    for name, meth in (("PPTATE", "LAZYR;TATEP"), ("PPWEIL", "LAZYR;WEILP")):
+        facts.CONFIGS.setdefault(name, ["-DPP_METHD=" + meth])
+        prog = ctx.program(name)
+        chk.used_program(prog)
+        rule_dispatch(ctx, prog, chk)
+        ctx._prog.pop(name, None)
     if chk.tier == "thorough":
-        from .. import facts
         for bits in (315, 330, 354, 455, 508, 544, 575, 638, 1536):
             name = "P%d" % bits
             facts.CONFIGS.setdefault(name, ["-DFP_PRIME=%d" % bits] + (["-DBN_PRECI=%d" % (2 * bits + 64)] if bits > 512 else []))
